@@ -13,6 +13,7 @@
    This file contains only statements, each closed by [exact], and their assumption audit. *)
 From RJ Require Import Base.Prelude Model.Walker Proofs.WalkerProofs Proofs.WalkerJudge.
 From Coq Require Import Permutation.
+From RJ Require Model.Core Model.Fs Spec.PlanSpec Spec.Mirror Proofs.WalkBridge.
 
 (* The reference walk is what remains of everything the workers send once the errors are removed. *)
 Theorem C17_reference_walk : forall t p, map REntry (walk_spec p t) = entries_of (walk_all p t).
@@ -119,6 +120,46 @@ Example C17_example :
   /\ admits t true [ (["a"%char :: nil; "f"%char :: nil], KFile); (["a"%char :: nil], KDir); (["l"%char :: nil], KLink) ] = false.
 Proof. vm_compute. repeat split. Qed.
 
+(* THE BRIDGE to the sync core (Proofs/WalkBridge.v).  [tree_of_fs incl f] is the walker's view of a
+   file-system model f of the core (Model/Fs.v): the children of a folder are the keys one component
+   longer, each with the filter verdict [incl] on its path; a link is a leaf; no unreadable folder.
+   The reference walk of that tree lists exactly the entries the core calls visible (every strict
+   non-root prefix an included real folder, the entry itself included) ... *)
+Theorem C17_walk_lists_the_visible_entries : forall incl f, Fs.fget f [] = Some Fs.NFolder -> forall q k,
+  In (q, k) (walk_spec [] (WalkBridge.tree_of_fs incl f)) <->
+  Fs.visible incl f q = true /\ exists n, Fs.fget f q = Some n /\ k = WalkBridge.kind_of_node n.
+Proof. exact WalkBridge.walk_tree_visible. Qed.
+
+(* ... so what the consumer of the N-worker walk has received when it sees the end-of-list marker,
+   completed with the entry details, is a [valid_listing] in [parents_first] order - the premise of the
+   mirror, confinement, crash and idempotence theorems (C01, C02, C03, C04, C08, C12) - for every number of
+   workers, queue capacity and interleaving; and every execution that runs until nothing is enabled
+   ends that way. *)
+Theorem C17_delivers_a_valid_listing : forall now_z incl normalize f N C s,
+  N >= 1 -> Fs.fget f [] = Some Fs.NFolder ->
+  reach N C (WalkBridge.tree_of_fs incl f) s -> cons s = CEos ->
+  Mirror.valid_listing now_z incl normalize f (WalkBridge.with_details now_z normalize f (recvd s)) /\
+  PlanSpec.parents_first (PlanSpec.lkeys (WalkBridge.with_details now_z normalize f (recvd s))).
+Proof. intros now_z incl normalize. exact (WalkBridge.walker_listing_valid incl now_z normalize). Qed.
+Theorem C17_every_run_ends_with_a_valid_listing : forall now_z incl normalize f N C s,
+  N >= 1 -> C >= 1 -> Fs.fget f [] = Some Fs.NFolder ->
+  reach N C (WalkBridge.tree_of_fs incl f) s -> (forall s', ~ step N C s s') ->
+  cons s = CEos /\
+  Mirror.valid_listing now_z incl normalize f (WalkBridge.with_details now_z normalize f (recvd s)) /\
+  PlanSpec.parents_first (PlanSpec.lkeys (WalkBridge.with_details now_z normalize f (recvd s))).
+Proof. intros now_z incl normalize. exact (WalkBridge.walker_run_ends_with_listing incl now_z normalize). Qed.
+
+(* the bridge on a concrete tree: an excluded folder with content, a link, a nested folder *)
+Example C17_bridge_example :
+  let nm c := (c :: nil)%list in
+  let f := [ ([], Fs.NFolder); ([nm "a"%char], Fs.NFolder); ([nm "a"%char; nm "f"%char], Fs.NFile (Fs.TSet 1) []);
+             ([nm "s"%char], Fs.NFolder); ([nm "s"%char; nm "g"%char], Fs.NFile (Fs.TSet 2) []);
+             ([nm "l"%char], Fs.NLink [] Core.SKFolder) ] in
+  let incl p := negb (Core.path_eqb p [nm "s"%char]) in
+  walk_spec [] (WalkBridge.tree_of_fs incl f) =
+    [ ([nm "a"%char], KDir); ([nm "a"%char; nm "f"%char], KFile); ([nm "l"%char], KLink) ].
+Proof. vm_compute. reflexivity. Qed.
+
 Print Assumptions C17_exactly_once.
 Print Assumptions C17_parent_first.
 Print Assumptions C17_no_descent.
@@ -130,3 +171,6 @@ Print Assumptions C17_admits_spec.
 Print Assumptions C17_model_listing_admitted.
 Print Assumptions C17_model_failed_listing_admitted.
 Print Assumptions C17_no_descent_unique.
+Print Assumptions C17_walk_lists_the_visible_entries.
+Print Assumptions C17_delivers_a_valid_listing.
+Print Assumptions C17_every_run_ends_with_a_valid_listing.
